@@ -1566,7 +1566,28 @@ class Repository:
             leave=True,
         )
 
+        def _prepare_file(file_path):
+            # Whatever already exists at the restore path must not survive: start
+            # from an empty file, the chunks will extend it to its recorded size
+            restore_to, metadata = files_metadata[file_path]
+            restore_to.parent.mkdir(parents=True, exist_ok=True)
+            with restore_to.open('wb'):
+                pass
+
+            if not files_digests[file_path]:
+                # An empty file that references no chunks, nothing to wait for
+                with glock:
+                    del files_metadata[file_path]
+                self.restore_metadata(restore_to, metadata)
+                finished_tracker.update()
+
         with finished_tracker, bytes_tracker:
+            await asyncio.gather(
+                *(
+                    loop.run_in_executor(writer, _prepare_file, x)
+                    for x in list(files_metadata)
+                )
+            )
             await asyncio.gather(
                 *(
                     loop.run_in_executor(loader, _download_chunk, *x)
